@@ -593,13 +593,10 @@ fn examine(e: &Ex, pos: Pos, sup: &Support) -> Examined {
                             if a.as_integer() != Some(n) {
                                 return done(violation("value", format!("value:enum:{}", shape), format!("enumerator initialised with {} has value {}", n, a.show())), true);
                             }
-                            // the implicit next enumerator: previous + 1 where that is representable in the type of the initialiser
-                            let next_defined = match v.ty() {
-                                Ty::Int => n < i32::MAX as i128,
-                                Ty::UInt => n < u32::MAX as i128,
-                                Ty::Enum(k) => n < if ENUMS[k as usize].underlying == Ty::Int { i32::MAX as i128 } else { u32::MAX as i128 },
-                                _ => true,
-                            };
+                            // the implicit next enumerator is the previous value plus one, exactly: past the range of the initialiser's
+                            // type the enumeration continues in a wider type (the C++ rule HLSL 2021 enums follow), it does not wrap;
+                            // a range that fits no 32-bit type is rejected (the diagnostic arm below)
+                            let next_defined = true;
                             if with_next && next_defined {
                                 match b {
                                     Some(b) if b.as_integer() == n.checked_add(1) => done(Verdict::Agree, true),
